@@ -637,18 +637,14 @@ func c10FuzzOne(b []byte) string {
 	if msg := c10JudgeParse(b, c10Parse(b)); msg != "" {
 		return msg
 	}
-	// the same bytes as a wire stream: length prefix is whatever the first 4 bytes say
-	func() {
-		if len(b) >= 4 && binary.BigEndian.Uint32(b[:4]) > 1<<22 && int32(binary.BigEndian.Uint32(b[:4])) > 0 {
-			return // see notes: ReadFrame allocates the announced size up front; keep the fuzzer alive
-		}
-		defer func() { _ = recover() }()
-	}()
+	// the same bytes as a wire stream: the length prefix is whatever the first 4 bytes say
 	return c10FuzzFrame(b)
 }
 
 func c10FuzzFrame(b []byte) (msg string) {
 	if len(b) >= 4 {
+		// ReadFrame allocates the announced size before reading (see notes, not asserted):
+		// keep the fuzz worker itself alive
 		if l := int32(binary.BigEndian.Uint32(b[:4])); l > 1<<22 {
 			return ""
 		}
